@@ -55,7 +55,33 @@ func class(err error) string {
 	return "err"
 }
 
+var errHang = errors.New("hang")
+
+// hung is set once a call did not return: the stuck goroutine keeps spinning, so every later
+// case of this process is answered "!hang" at once instead of waiting again.
+var hung bool
+
+// encode runs encode1 under a watchdog (an encoder that never returns is an observable).
 func encode(p []byte, sizes []int) ([]byte, error) {
+	type res struct {
+		b   []byte
+		err error
+	}
+	ch := make(chan res, 1)
+	go func() {
+		b, err := encode1(p, sizes)
+		ch <- res{b, err}
+	}()
+	select {
+	case r := <-ch:
+		return r.b, r.err
+	case <-time.After(20 * time.Second):
+		hung = true
+		return nil, errHang
+	}
+}
+
+func encode1(p []byte, sizes []int) ([]byte, error) {
 	var out bytes.Buffer
 	enc, err := amp.NewArmorEncoder(&out)
 	if err != nil {
@@ -115,6 +141,7 @@ func decode(doc []byte, srcchunk, rbuf int) string {
 	case r := <-ch:
 		return r.s
 	case <-time.After(20 * time.Second):
+		hung = true
 		return "!hang"
 	}
 }
@@ -141,6 +168,9 @@ func atoi(t string) int {
 
 func main() {
 	wire.Loop(func(a []string) string {
+		if hung {
+			return "!hang"
+		}
 		if len(a) < 2 {
 			return "!badcase"
 		}
@@ -168,12 +198,18 @@ func main() {
 		switch a[0] {
 		case "enc":
 			o, err := encode(p, nil)
+			if err == errHang {
+				return "!hang"
+			}
 			if err != nil {
 				return "E:write"
 			}
 			return wire.Hex(o)
 		case "stream":
 			o, err := encode(p, ints(a[2]))
+			if err == errHang {
+				return "!hang"
+			}
 			if err != nil {
 				return "E:write"
 			}
@@ -190,6 +226,9 @@ func main() {
 			return decode(p, atoi(a[1]), atoi(a[2]))
 		case "rt":
 			o, err := encode(p, ints(a[2]))
+			if err == errHang {
+				return "!hang"
+			}
 			if err != nil {
 				return "E:write"
 			}
